@@ -1394,7 +1394,12 @@ class PX:
                 if key not in self.memo:
                     self.memo[key] = self.choose(len(b.volatile[attr]), key)
                     self.assumes.append((key, b.volatile[attr][self.memo[key]]))
-                return b.volatile[attr][self.memo[key]]
+                picked = b.volatile[attr][self.memo[key]]
+                if isinstance(picked, str) and picked == "__keep__":
+                    return b.fields.get(attr)  # nobody touched it while the coroutine was suspended
+                b.fields[attr] = picked  # another callback stored this value meanwhile: later reads and updates start from it
+                b.fields[("__epoch__", attr)] = self.epoch
+                return picked
             if attr in b.fields:
                 return b.fields[attr]
             if isinstance(b.cls, ClassRef):
